@@ -257,7 +257,8 @@ def run_solver(rng, obs):
             ok = len(set(vals)) == 1 and (not pins or vals[0] in pins)
             if not ok:
                 late = [(i, j) for (i, j) in tied if i in g and any(('pin', m) in when and when[('pin', m)] < when[('tie', i, j)] for m in (i, j))]
-                out.append({'group': g, 'values': vals, 'pinned': {str(i): fixed[i] for i in g if i in fixed}, 'ties_applied_after_a_pin_of_a_member': late})
+                out.append({'group': g, 'values': vals, 'pinned': {str(i): fixed[i] for i in g if i in fixed}, 'ties_applied_after_a_pin_of_a_member': late,
+                            'tie_collapse_calls': sorted(set(when[('tie', i, j)] for (i, j) in tied if i in g))})
         return out
     def hook(seq, x):
         if fixed or tied:
